@@ -27,6 +27,7 @@ type Ctrl struct {
 	Bufsiz     int                    `json:"bufsiz"`
 	PeriodMs   int                    `json:"period_ms"` // 0 = relisting disabled (10000h)
 	Filter     world.FilterSpec       `json:"filter"`
+	FlipTo     *world.FilterSpec      `json:"flip_to,omitempty"` // the controller-level filter is stateful and accepts this instead once the server is quiet: the next relist reconciles
 	Unstructured bool                 `json:"unstructured,omitempty"` // the server speaks the dynamic client's representation
 	HeadFrame    string               `json:"head_frame,omitempty"`   // every watch stream opens with this non-object frame
 	Bystander  bool                   `json:"bystander,omitempty"` // a second, unrelated controller in the same process whose every Watch call hangs: controllers share nothing
@@ -167,6 +168,10 @@ func genC03(g GenCtx) interface{} {
 	if rng.Intn(3) > 0 {
 		sc.Filter = randFilter(rng)
 	}
+	if rng.Intn(5) == 0 {
+		f := randFilter(rng)
+		sc.FlipTo = &f
+	}
 	nkeys := 1 + rng.Intn(4)
 	sc.Init = genInit(rng, nkeys)
 	if rng.Intn(12) == 0 {
@@ -287,6 +292,7 @@ func runCtrl(sci interface{}) {
 		srv.Apply(o)
 	}
 	h := world.NewH(srv, sc.Filter, sc.period(), sc.LogYield)
+	h.RootSwitch = sc.FlipTo != nil
 	h.NoRelist = sc.PeriodMs <= 0
 	// no hand-off can overflow while the whole server log (initial objects
 	// included: a reconnect from a stale version re-sends all of it) fits a buffer
@@ -410,6 +416,28 @@ func runCtrl(sci interface{}) {
 		}
 		h.CheckRootEqualsServer("not-converged-after-relist")
 		checkWatchProtocol(h, sc)
+		if sc.FlipTo != nil {
+			// the filter's verdicts change while server and watch are silent: "each
+			// completed list leaves the cache equal to that list's accepted objects"
+			h.FlipRoot(*sc.FlipTo)
+			nl2 := len(srv.Lists)
+			deadline := detsim.Elapsed() + bound
+			for done := false; !done; {
+				for _, l := range srv.Lists {
+					if l.N > nl2 && l.Done {
+						done = true
+					}
+				}
+				if !done {
+					if detsim.Elapsed() > deadline {
+						detsim.Fail("no-relist-after-quiesce", "no list call started and completed within %v (period %v, list latency <= %v)\n%s", bound, per, maxLat, srv.Summary())
+					}
+					time.Sleep(per/4 + time.Millisecond)
+				}
+			}
+			detsim.Settle()
+			h.CheckRootEqualsServer("not-converged-after-relist")
+		}
 	} else {
 		// C04: only the watch can deliver; a pending reconnect fires within the
 		// retry delay (1 s), far below the refresh period
